@@ -64,7 +64,7 @@ def templatesOf : Node → List Tmpl
       | _ => none
   | _ => []
 
-inductive SKind where | sIf | sElseIf | sElse | sFor | sStmt
+inductive SKind where | sIf | sElseIf | sElse | sFor | sSwitch | sStmt
 deriving DecidableEq
 
 def silentKind (code : GoStr) : SKind :=
@@ -72,7 +72,40 @@ def silentKind (code : GoStr) : SKind :=
   else if code == [101, 108, 115, 101] then .sElse                          -- "else"
   else if hasPrefix code [105, 102, 32] then .sIf                           -- "if "
   else if hasPrefix code [102, 111, 114, 32] then .sFor                     -- "for "
+  else if hasPrefix code [115, 119, 105, 116, 99, 104, 32] then .sSwitch    -- "switch "
   else .sStmt
+
+/-- the items of `a, b, c` -/
+def splitCommaSp : GoStr → List GoStr
+  | [] => [[]]
+  | 44 :: 32 :: rest => [] :: splitCommaSp rest
+  | b :: rest =>
+    match splitCommaSp rest with
+    | x :: xs => (b :: x) :: xs
+    | [] => [[b]]
+
+/-- `case a, b:` → the listed literals; any other line → none -/
+def caseVals (code : GoStr) : Option (List GoStr) :=
+  if hasPrefix code [99, 97, 115, 101, 32] && hasSuffix code [58] then
+    some (splitCommaSp ((code.drop 5).take (code.length - 6)))
+  else none
+
+def clauseOf (v : GoStr) : Node → Option (List Node)
+  | .silent o _ ks =>
+    match caseVals (trimSpace o.lit) with
+    | some vs => if vs.contains v then some ks else none
+    | none => none
+  | _ => none
+
+def defaultOf : Node → Option (List Node)
+  | .silent o _ ks => if trimSpace o.lit == [100, 101, 102, 97, 117, 108, 116, 58] then some ks else none   -- "default:"
+  | _ => none
+
+/-- the clause of a `switch` body that runs for tag value `v`: the first `case` listing it, else `default:` -/
+def selectClause (v : GoStr) (body : List Node) : Option (List Node) :=
+  match body.findSome? (clauseOf v) with
+  | some ks => some ks
+  | none => body.findSome? defaultOf
 
 def isElseNode : Node → Bool
   | .silent o _ _ => let k := silentKind (trimSpace o.lit); k == .sElseIf || k == .sElse
@@ -266,6 +299,16 @@ def execKids (fuel : Nat) (c : Ctx) (kids : List Node) (buf : Buf) : Except Fail
         let buf ← vals.foldlM (fun buf v =>
           execKids fuel { c with env := { c.env with strs := (x, v) :: c.env.strs } } body buf) buf
         execKids fuel c rest buf
+    | .sSwitch =>
+      -- `switch tag`: the environment gives the tag's value as text; exactly one clause of the body runs
+      match c.env.str code with
+      | none => .error (.model "switch tag not in the environment")
+      | some v =>
+        match selectClause v body with
+        | none => execKids fuel c rest buf
+        | some ks => do
+          let buf ← execKids fuel c ks buf
+          execKids fuel c rest buf
     | .sStmt =>
       -- a plain statement (`w1 := …`, `}`): no output of its own; a body is executed once (bare block)
       if body.isEmpty then execKids fuel c rest buf
